@@ -103,6 +103,8 @@ def main():
     conf = [m for m in allm if m.get('confirmed')]
     det = [m for m in conf if m.get('detection', {}).get('detected')]
     out.append(f'Seeded changes: {len(allm)} kept, {len(conf)} confirmed, {len(det)} of the confirmed ones reported by at least one registered check.')
+    r3 = [m for m in conf if '-r3-' in m['seed']]
+    conf = [m for m in conf if '-r3-' not in m['seed']]
     r2 = [m for m in conf if 'detection_before_round2_rules' in m]
     r2b = [m for m in r2 if m['detection_before_round2_rules'].get('detected')]
     r2f = [m for m in r2 if m.get('detection', {}).get('detected')]
@@ -110,6 +112,9 @@ def main():
     r1f = [m for m in r1 if m.get('detection', {}).get('detected')]
     out.append(f'Round 1: {len(r1)} confirmed, {len(r1f)} reported by the final checker (many of its rules were written after reading the round-1 misses).')
     out.append(f'Round 2 (fresh seeds): {len(r2)} confirmed; {len(r2b)} reported by the checker frozen before the seeds were looked at (the unbiased figure), {len(r2f)} by the final checker.')
+    if r3:
+        r3f = [m for m in r3 if m.get('detection', {}).get('detected')]
+        out.append(f'Round 3 (fresh seeds against the final checker, no rule written afterwards): {len(r3)} confirmed, {len(r3f)} reported.')
     out.append('')
     d = open(f'{V}/DESIGN.md').read()
     head = d.split(MARK)[0].rstrip() + '\n\n'
